@@ -58,7 +58,7 @@ func (S) Info() scen.Info {
 			"datamodel, node/basicnode, node/bindnode, node/gendemo, codec/dagcbor, codec/dagjson, traversal (walk, focus, transforms), traversal/selector, linking, memstore": "real",
 			"goroutine scheduling": "stub: seeded one-at-a-time scheduler; yields between operations, between reader chunks, inside visitor and transform callbacks",
 		},
-		QuickUnits: 24000, ThoroughUnits: 3000000, QuickSecs: 240, ThoroughSecs: 1200,
+		QuickUnits: 50000, ThoroughUnits: 3000000, QuickSecs: 240, ThoroughSecs: 1200,
 		ProbeKeys: []string{"probe.reset_producer", "probe.assign_then_reset", "probe.copy_and_extend", "probe.largebytes_interleaved", "probe.two_readers_same_node", "probe.subset_match_bytes", "probe.subset_match_string", "probe.focused_transform", "probe.walk_transform", "probe.abandoned_builder", "probe.typed_node_in_pool", "probe.stream_bytes_node", "probe.callback_interleaved", "probe.loaded_node_in_pool", "probe.load_while_holding_loaded_nodes", "probe.iterator_nodes_retained", "probe.lookup_result_retained", "probe.extended_after_assign", "probe.stream_reader_unusual_but_legal", "probe.stream_read_fault_fired"},
 		EventsKey: "events",
 	}
